@@ -21,7 +21,7 @@ PROPERTY = "C18"
 LEVEL = "exploration"
 RULE = (
     "objects: default LASFile, scratch LASFiles (float curves with NaN cells, single curve, single row), files read with "
-    "integer/float/text header values, float and text curves, NaN cells, duplicated and blank mnemonics, header-only; "
+    "integer/float/text header values, float and text curves, NaN cells, duplicated and blank mnemonics, header-only, object-dtype curves holding NaN next to text (set_data / set_data_from_df with a text column); "
     "JSON decoded by json.loads with parse_constant raising; CSV for the full product mnemonics {True, False, list} x "
     "units {True, False, list} x units_loc {line, [], (), None} x lineterminator x delimiter decoded by csv.reader; "
     "Excel decoded by openpyxl; df()/set_data_from_df; depth views for every member of DEPTH_UNITS in upper/lower/title "
@@ -62,7 +62,21 @@ def objects():
         las.append_curve("A", np.array([np.nan]))
         return las
 
+    def setdata_mixed():
+        las = lasio.LASFile()
+        las.set_data(np.array([[1.0, "sand", np.nan, 7.5], [2.0, "shale", 3.5, np.nan]], dtype=object), names=["DEPT", "LITH", "GR", "RT"])
+        return las
+
+    def from_df():
+        import pandas as pd
+        las = lasio.LASFile()
+        df = pd.DataFrame({"LITH": ["sand", "shale", "lime"], "GR": [np.nan, 2.5, 3.5]}, index=pd.Index([1.0, 2.0, 3.0], name="DEPT"))
+        las.set_data_from_df(df)
+        return las
+
     return [
+        ("setdata-mixed", setdata_mixed),
+        ("from-df-mixed", from_df),
         ("default", lambda: lasio.LASFile()),
         ("scratch", scratch),
         ("scratch-row", scratch_row),
